@@ -1,6 +1,6 @@
 (* PV.C13.Examples — non-vacuity: concrete non-trivial inputs meeting the hypotheses of the theorems. *)
 From Coq Require Import QArith ZArith NArith List Bool PArith Arith.
-From PV Require Import Base.PyData C13.Model C13.Spec C13.Refuted C13.Time C13.Pk.
+From PV Require Import Base.PyData C13.Model C13.Spec C13.Refuted C13.Time C13.Pk C13.Raw.
 Import ListNotations.
 Local Open Scope nat_scope.
 
@@ -171,3 +171,18 @@ Example filter_observations_example :
   obs_label [s_ID; s_MDV; s_DV] [] = Some s_MDV /\
   filter_obs s_MDV t = Ok [(s_ID, [CNum 1; CNum 1; CNum (3#1)]); (s_MDV, [CNum 1; CNum 0; CNum 0]); (s_DV, [CNum 0; CNum (5#1); CNum (7#1)])].
 Proof. split; vm_compute; reflexivity. Qed.
+
+(* stamp_difference_exact: 12:30 and 0.25 h split exactly; 12:10 does not *)
+Example split_exact_examples :
+  (exists a, time_value_f (s_of [49;50;58;51;48]) = Ok a /\ split_exact a = true /\ ns_of_hours a = 45000000000000%Z) /\
+  (exists b, time_value_f (s_of [48;46;50;53]) = Ok b /\ split_exact b = true) /\
+  (exists c, time_value_f (s_of [49;50;58;49;48]) = Ok c /\ split_exact c = false /\ ns_of_hours c = 43799999999999%Z).
+Proof. repeat split; eexists; repeat split; vm_compute; reflexivity. Qed.
+
+(* raw_refines: the reader_refines example file in raw mode: strings, the filtered and the surplus data still there *)
+Example raw_refines_example :
+  g_alphabet ex_input = true /\ g_edge_tab ex_input = true /\
+  exists t, read_raw ex_input = Ok t /\ map fst t = [s_ID; s_TIME; s_of [67;79;78;67]; s_of [87;71;84]; s_of [83;69;88]] /\
+            map (fun c => length (snd c)) t = [5; 5; 5; 5; 5] /\
+            nth 2 (nth 2 (map snd t) []) CNaN = CStr (s_of [49;100;49]) /\ nth 4 (nth 2 (map snd t) []) (CStr []) = CNaN.
+Proof. split; [vm_compute; reflexivity|]. split; [vm_compute; reflexivity|]. eexists. split; [vm_compute; reflexivity|]. repeat split; vm_compute; reflexivity. Qed.
